@@ -121,9 +121,14 @@ func JudgeC16(c *Ctx, h *History, obs []*Obs) ([]Violation, error) {
 		}
 		// validity of the inputs: from the spec when the history has one (independent of
 		// goverter), else from the clean-tree reference
+		sfx := ""
+		if lacksPackageClause(o, tags) {
+			sfx = "/stale-output-without-package-clause"
+			c.Stats.Add("c16.gens_over_output_without_package_clause", 1)
+		}
 		if g.Expect == "ok" && o.Exit != 0 {
 			c.Stats.Add("c16.recoveries_checked", 1)
-			out = append(out, Violation{Property: "C16", Class: "regeneration-blocked", OpIndex: o.OpIndex,
+			out = append(out, Violation{Property: "C16", Class: "regeneration-blocked" + sfx, OpIndex: o.OpIndex,
 				Msg: fmt.Sprintf("inputs are valid by construction, tags %q / constraint %q are complementary and every prior output (%d present) is absent or header-intact, but generation exits %d: %s", tags, constraint, len(o.PriorOutputs), o.Exit, trunc(o.Stderr, 400))})
 			continue
 		}
@@ -172,7 +177,7 @@ func JudgeC16(c *Ctx, h *History, obs []*Obs) ([]Violation, error) {
 			c.Stats.Add("c16.clean_gens_checked", 1)
 		}
 		if o.Exit != 0 {
-			out = append(out, Violation{Property: "C16", Class: "regeneration-blocked", OpIndex: o.OpIndex,
+			out = append(out, Violation{Property: "C16", Class: "regeneration-blocked" + sfx, OpIndex: o.OpIndex,
 				Msg: fmt.Sprintf("inputs are valid, tags %q / constraint %q are complementary and every prior output is absent or header-intact, but regeneration exits %d: %s", tags, constraint, o.Exit, trunc(o.Stderr, 400))})
 			continue
 		}
